@@ -155,7 +155,13 @@ theorem dropCells_wf (w : WF t) : WF t.dropCells := by
   have hn : t.dropCells.hierarchy.Nodup := by rw [dropCells_hierarchy]; exact w.hNodup
   have hne : t.dropCells.hierarchy ≠ [] := by rw [dropCells_hierarchy]; exact w.hNe
   exact
-    { valid := validate_of_strict hn hne (dropCells_strict (strict_of_validate w.valid) w.hNodup)
+    { valid := validate_of_strict hn hne
+        (by
+          intro l0 h0
+          rw [dropCells_nodesAt']
+          rw [dropCells_hierarchy] at h0
+          exact hasNode_of_validate w.valid l0 h0)
+        (dropCells_strict (strict_of_validate w.valid) w.hNodup)
       hNodup := hn
       hNe := hne
       dict := dropCells_dictOK w.dict }
